@@ -232,8 +232,64 @@ def section_ecef_to_lla(rep, mutate=None):
     return per_path
 
 
+def section_olson_series(rep, k_lat, k_alt, mutate=None):
+    """accuracy of the Olson inverse as a power series in the squared eccentricity: with
+    earth.E2 replaced by a formal parameter e2 (so that lla_to_ecef, the constants a1..a6 and every
+    intermediate of ecef_to_lla are series in e2 with coefficients in sin/cos(lat), the altitude
+    and the semi-axis), ecef_to_lla(lla_to_ecef(lat, 0, h)) = (lat, 0, h) coefficientwise through
+    e2^k_lat in latitude and e2^k_alt in altitude, on both branches of the algorithm. Square roots
+    of perfect squares are taken exactly (no auxiliary variable), the identities are decided by the
+    exact normal form."""
+    import numpy as np
+    import z3
+    from .. import symreal as S, enga, paths
+    K = max(k_lat, k_alt)
+    S.new_ctx([('e2', K)])
+    S.C.match_inverse_trig = True
+    S.C.exact_sqrt = True
+    S.C.poly_limit = 3000000
+    m = enga.install(symconst=False)
+    T, E = m['T'], m['E']
+    if mutate:
+        mutate(m)
+    J, O = S.J, S.O
+    enga._set(E, 'E2', S.formal(0))
+    lat = S.declare_angle('lat', 1, 89)
+    h = S.var('alt')
+    S.C.dom += [z3.Real('alt') >= -10000, z3.Real('alt') <= 4e7]
+    ex = paths.Exec(S.C.dom + [S.DEG > S.rat(S.DEG_LO), S.DEG < S.rat(S.DEG_HI)], timeout_ms=90000)
+    orig = ex.decide
+
+    def decide(cond):
+        for c in S.C.cons[getattr(ex, '_nc', 0):]:
+            ex.solver.add(c)
+        ex._nc = len(S.C.cons)
+        return orig(cond)
+    ex.decide = decide
+    res, _ = ex.run(lambda: (setattr(ex, '_nc', 0), T.ecef_to_lla(T.lla_to_ecef(O([lat, J(0), h]))))[1], max_paths=16)
+    per_path = []
+    for pr in res:
+        if pr.status == 'abort' and pr.out == 'INFEASIBLE':
+            continue
+        if pr.status != 'ok':
+            raise RuntimeError('ecef_to_lla(lla_to_ecef(.)) did not run symbolically: %s' % (pr.out,))
+        out = pr.out
+        extra = list(pr.pc)
+        meta = {'check': 'olson'}
+        obls = []
+        for k in range(k_lat + 1):
+            obls.append(enga.zero('round trip latitude, coefficient of e2^%d' % k, (J(out[0]) - lat).part(k), 'Olson inverse: round trip as a series in the squared eccentricity', extra, meta))
+        for k in range(k_alt + 1):
+            obls.append(enga.zero('round trip altitude, coefficient of e2^%d' % k, (J(out[2]) - h).part(k), 'Olson inverse: round trip as a series in the squared eccentricity', extra, meta))
+        per_path.append(obls)
+    rep.run.encode(T.ecef_to_lla, T.lla_to_ecef)
+    return per_path
+
+
 # ------------------------------------------------------------------------------------------
 CANARIES = [
+    ('Olson: sine not re-derived from the cosine in the high-latitude branch', 'olson', ('T', 'ecef_to_lla', 's[m] = ss[m] ** 0.5', 's[m] = s[m]')),
+    ('Olson: polar radius of curvature without (1 - e2)', 'olson', ('T', 'ecef_to_lla', 'rf = a6 * rg', 'rf = rg')),
     ('lla_to_ecef z without (1-E2)', 'geo', ('T', 'lla_to_ecef', 'r_e[2] = ((1 - earth.E2) * re + alt) * sin_lat', 'r_e[2] = (re + alt) * sin_lat')),
     ('mat_en_from_ll latitude sign', 'geo', ('T', 'mat_en_from_ll', "[lon, -90 - lat]", "[lon, -90 + lat]")),
     ('principal_radii swaps exponent', 'geo', ('E', 'principal_radii', 'rn = re * (1 - E2) / x', 'rn = re * (1 - E2)')),
@@ -274,7 +330,7 @@ def run(run):
     run.assume('exact real arithmetic; sin/cos/sqrt relaxed to algebraic pairs (one pair per canonical angle, lat in [-89,89] deg for expressions dividing by cos(lat), [-90,90] otherwise), altitude in [-10 km, 100 km]',
                'ellipsoid and gravity constants E2, A, RATE, GE, GP are symbolic parameters in boxes around WGS-84: the identities are proved for every such ellipsoid',
                'Rotation.from_euler stub = product of elementary rotations (scipy contract), validated against scipy in the validation step',
-               'OUTSIDE: accuracy of the Olson approximation ecef_to_lla(lla_to_ecef(p)) ~ p in latitude/altitude (a transcendental error bound; no delta-complete solver installed); only its structure is decided')
+               'Olson inverse: its accuracy is decided as a SERIES claim: with the squared eccentricity a formal parameter the round trip ecef_to_lla(lla_to_ecef(lat, 0, h)) reproduces the latitude through e2^2 (thorough: e2^3) and the altitude through e2^3 for every lat in (1, 89) deg and altitude in [-10 km, 40000 km], both branches; since e2 = 6.7e-3 the first undecided coefficient is weighted by 2e-9 (e2^4, of the semi-axis: centimetres at most). OUTSIDE: a numeric bound on the remainder (a transcendental error bound; no delta-complete solver installed), the southern hemisphere of this claim (covered through the mirror obligation z -> -z) and longitudes other than 0 (the longitude is recovered exactly by a separate obligation)')
     timeout = 60 if run.tier == 'quick' else 300
     if not run.only or run.only == 'geo':
         obls, info = section_geometry(rep)
@@ -298,13 +354,24 @@ def run(run):
             run.cov['ecef_to_lla_paths'] = len(per_path)
         except (RuntimeError, NotImplementedError, S.SymbolicBranch) as e:
             run.error('ecef_to_lla structure sub-claim could not be executed symbolically: %s' % e)
+    olson_orders = (2, 3) if run.tier == 'quick' else (3, 3)
+    if not run.only or run.only == 'olson':
+        try:
+            per_path = section_olson_series(rep, *olson_orders)
+            run.witness('Olson round trip explored on both branches of the algorithm', len(per_path) >= 2)
+            bad = rep.batch([o for obls in per_path for o in obls], timeout_s=max(timeout, 240))
+            finish_bad(rep, bad)
+        except (RuntimeError, NotImplementedError, S.SymbolicBranch) as e:
+            run.error('Olson series sub-claim could not be executed symbolically: %s' % e)
     if not run.only:
         for ci, (name, sec, spec) in enumerate(CANARIES):
-            if run.tier == 'quick' and ci % 2 == 1 and ci != len(CANARIES) - 1:
+            if run.tier == 'quick' and ci % 2 == 1 and ci != len(CANARIES) - 1 and sec != 'olson':
                 continue
             try:
                 if sec == 'geo':
                     obls, _ = section_geometry(rep, _mut(spec))
+                elif sec == 'olson':
+                    obls = [o for p in section_olson_series(rep, 2, 3, _mut(spec)) for o in p if 'altitude' in o.name]
                 else:
                     obls = [o for p in section_ecef_to_lla(rep, _mut(spec)) for o in p]
             except common.HarnessError as e:
@@ -360,6 +427,19 @@ def replay(spec):
     pt = spec['point']
     lat, lon, alt = pt.get('lat', 40.0), pt.get('lon', 30.0), pt.get('alt', 1000.0)
     fails = []
+    if spec['check'] == 'olson':
+        worst = (0.0, None)
+        lats = sorted({float(pt.get('lat', 60.0))} | {1.0, 20.0, 40.0, 56.0, 57.5, 60.0, 65.0, 75.0, 85.0, 89.0})
+        for la in lats + [-x for x in lats]:
+            for al in sorted({float(pt.get('alt', 1000.0)), -5000.0, 0.0, 1e4, 1e6, 3.9e7}):
+                for lo in (0.0, 100.0, -179.0):
+                    back = transform.ecef_to_lla(transform.lla_to_ecef(np.array([la, lo, al])))
+                    err = max(abs(back[0] - la) * 111e3, abs(back[2] - al), abs(((back[1] - lo + 180) % 360) - 180) * 111e3 * math.cos(math.radians(la)))
+                    if err > worst[0]:
+                        worst = (err, (la, lo, al, back.tolist()))
+        if worst[0] > 1e-6:
+            fails.append('ecef_to_lla(lla_to_ecef(p)) differs from p by %.3g m at lat %g lon %g alt %g (got %s)' % ((worst[0],) + worst[1]))
+        return {'violated': bool(fails), 'detail': fails}
     if spec['check'] == 'ecef':
         lonr = math.radians(pt.get('lon', 30.0))
         rho, z = pt.get('rho', 4e6), pt.get('z', 3e6)
